@@ -33,7 +33,7 @@ HEADER_VALUES = [b'plain', b'a\rb', b'a\nb', b'a\r\n b', b'x\x00y', b'caf\xc3\xa
                  b'[PATCH v2 net-next 00/12 add zero-copy receive support for the', b'Re: [' + b'ab cd ' * 12, b'[' + b'a' * 60, b'[[' * 30, b'(' + b'a b ' * 30, b'<' + b'a' * 80,
                  b'"' + b'a ' * 50, b'=?utf-8?q?' + b'a_' * 40, b'a@' + b'b.' * 60, b'"a" <' + b'x' * 70, b'[a]' * 20 + b'[' + b'b' * 40, b'{' + b'1' * 60]
 HEADER_NAMES = gen.HEADER_NAMES + [b'Sender', b'Reply-To', b'Bcc', b'Content-ID', b'Content-Description', b'Content-Language', b'Content-Location', b'Content-MD5', b'References']
-FETCH_ATTRS = [b'ENVELOPE', b'BODYSTRUCTURE', b'BODY', b'FLAGS', b'INTERNALDATE', b'RFC822.SIZE', b'UID', b'BODY.PEEK[HEADER.FIELDS (SUBJECT FROM TO DATE)]', b'BODY.PEEK[HEADER.FIELDS.NOT (X-A)]',
+FETCH_ATTRS = [b'', b' ', b'ENVELOPE', b'BODYSTRUCTURE', b'BODY', b'FLAGS', b'INTERNALDATE', b'RFC822.SIZE', b'UID', b'BODY.PEEK[HEADER.FIELDS (SUBJECT FROM TO DATE)]', b'BODY.PEEK[HEADER.FIELDS.NOT (X-A)]',
                b'BODY.PEEK[HEADER]', b'BODY.PEEK[TEXT]', b'BODY.PEEK[]<0.10>', b'BODY.PEEK[1]', b'BODY.PEEK[1.MIME]', b'BODY.PEEK[2.1]', b'BODY.PEEK[1.HEADER]', b'BINARY.PEEK[1]', b'BINARY.SIZE[1]',
                b'BINARY.PEEK[]', b'RFC822.HEADER', b'RFC822.TEXT', b'RFC822', b'EMAILID', b'THREADID', b'BODY[]',
                # header names are astrings: the section specifier is echoed back, so quoted / literal names with special bytes matter
